@@ -105,7 +105,20 @@ func (f *Frame) copyRel(t types.Type, a, b *Term, old, cur *State, top bool, dep
 	switch u := t.Underlying().(type) {
 	case *types.Struct:
 		if !top && f.ctx.eng.copyMethodFor(t) != nil {
-			return f.ctx.uf("copyrel!"+f.tkey(t), SBool, a, b)
+			abs := f.ctx.uf("copyrel!"+f.tkey(t), SBool, a, b)
+			if f.copyUnfold > 0 && true {
+				// where a copy relation is ASSUMED (a callee's DeepCopy contract), a nested relation is unfolded one
+				// more level: the caller may store into what the nested copy allocated (duplicate.Type.Struct.Fields = ...)
+				f.copyUnfold--
+				si := f.structInfo(t)
+				var cs []*Term
+				for i := range si.Fields {
+					cs = append(cs, f.copyRel(u.Field(i).Type(), si.Get(a, i), si.Get(b, i), old, cur, false, depth+1))
+				}
+				f.copyUnfold++
+				return And(append([]*Term{abs}, cs...)...)
+			}
+			return abs
 		}
 		si := f.structInfo(t)
 		var cs []*Term
@@ -130,8 +143,12 @@ func (f *Frame) copyRel(t types.Type, a, b *Term, old, cur *State, top bool, dep
 		ea := Select(Select(Eo, SlcBase(a)), Slot(SlcOff(a), j))
 		eb := Select(Select(En, SlcBase(b)), Slot(SlcOff(b), j))
 		body := Implies(And(Le(IntLit(0), j), Lt(j, SlcLen(b))), f.copyRel(et, ea, eb, old, cur, false, depth+1))
+		// independence also for the empty case: an empty copy may be nil, freshly allocated or a
+		// zero-capacity view, but never a slice with spare capacity in memory that existed before (an append
+		// to the copy would then write into it)
 		return And(Eq(SlcLen(a), SlcLen(b)),
 			Implies(Gt(SlcLen(b), IntLit(0)), And(f.isFresh(SlcBase(b)), Lt(SlcBase(b), cur.alloc))),
+			Implies(Eq(SlcLen(b), IntLit(0)), Or(Eq(SlcBase(b), IntLit(0)), Eq(SlcCap(b), IntLit(0)), And(f.isFresh(SlcBase(b)), Lt(SlcBase(b), cur.alloc)))),
 			Forall([]*Term{j}, body, []*Term{eb}))
 	case *types.Map:
 		ks, vs := f.sortOf(u.Key()), f.sortOf(u.Elem())
@@ -206,7 +223,12 @@ func (f *Frame) copyEnsures(cf *Frame, target *ssa.Function, pre, post *State, a
 	saved := cf.parentEntryOverride
 	cf.parentEntryOverride = pre
 	defer func() { cf.parentEntryOverride = saved }()
+	if !f.top().trackOwn {
+		// (not while verifying the DeepCopy family itself: there the nested relations stay abstract)
+		cf.copyUnfold = 1
+	}
 	unfolded := cf.copyRel(resT, a, res, pre, post, true, 1)
+	cf.copyUnfold = 0
 	if _, ok := vt.Underlying().(*types.Struct); ok && f.ctx.eng.copyMethodFor(vt) != nil {
 		return And(f.ctx.uf("copyrel!"+cf.tkey(vt), SBool, a, res), unfolded)
 	}
